@@ -261,6 +261,9 @@ func CheckC18(run *ev.Run) {
 		}
 		props["lens"] = map[string]interface{}{"type": "string", "minLength": 2, "maxLength": 1000000}
 		props["mult"] = map[string]interface{}{"type": "integer", "multipleOf": 5}
+		props["enumEsc"] = map[string]interface{}{"type": "string", "enum": []interface{}{"<1h", "1h-1d", ">1d", "R&D", "say \"hi\"", "back\\slash", "tab\there", "é"}}
+		props["enumInt"] = map[string]interface{}{"type": "integer", "enum": []interface{}{1, 2, 30}}
+		props["pat"] = map[string]interface{}{"type": "string", "pattern": "^[a-z]+\\d{2}<&>$"}
 		props["arr"] = map[string]interface{}{"type": "array", "minItems": 1, "maxItems": 12, "uniqueItems": true, "items": map[string]interface{}{"type": "string"}}
 		dd["Bounds"] = map[string]interface{}{"type": "object", "properties": props}
 		specDoc, _ := json.MarshalIndent(doc, "", " ")
